@@ -53,10 +53,10 @@ class NumberParameter(Parameter):
 
         try:
             return int(value)
-        except ValueError:
+        except (TypeError, ValueError):
             try:
                 return float(value)
-            except ValueError:
+            except (TypeError, ValueError):
                 raise ParameterNotValid(value, "Number", lineno)
 
     @staticmethod
